@@ -18,7 +18,8 @@ def gen_icdf(d):
                 checks.append('{ int i=vt_range(0,(int)sizeof(silk_sign_iCDF)-1); VASSERT(silk_sign_iCDF[i]>0,"silk_sign_iCDF: usable as first entry of a 2-entry table"); cnt++; }')
                 found = True
                 continue
-            checks.append('CHECK(%s, (int)sizeof(%s));' % (name, name))
+            ndim = m.group(4).count('[')
+            checks.append(('CHECK(%s, (int)sizeof(%s));' if ndim == 1 else 'CHECK2(%s, (int)(sizeof(%s)/sizeof(%s[0])), (int)sizeof(%s[0]));').replace('%s', name))
             found = True
         if found and f.endswith('.c') and 'quant_bands' not in f:
             incs.append('#include "%s"' % f)
@@ -42,7 +43,7 @@ def obligations():
                     unwindset=['ec_laplace_encode:42', 'ec_laplace_decode:42'], functions=['ec_laplace_encode', 'ec_laplace_decode'], budget=900,
                     bounds='every (LM,intra,band) entry of e_prob_model (symbolic), every fm<32768 / every value in int16',
                     stubs=['ec_decode_bin/ec_dec_update/ec_encode_bin: tape stubs']))
-    L.append(Ob('H4.icdf_tables', 'C17_icdf.c', [], [], unwind=1, unwindset=[], gen=gen_icdf, functions=[], budget=300, nosimplify=True,
+    L.append(Ob('H4.icdf_tables', 'C17_icdf.c', [], [], unwind=1, unwindset=[], gen=gen_icdf, functions=[], budget=300,
                 bounds='every static ICDF table of silk/tables_*.c, celt/celt.h, celt/quant_bands.c found by the source scan; symbolic index'))
     L.append(Ob('H5.pulse_cache', 'C17_pcache.c', [], [], unwind=1, unwindset=['bits2pulses:8', 'spec_log2_frac:5'], functions=['bits2pulses'], budget=600,
                 bounds='static 48 kHz mode: every (LM+1 in 0..4, band in 0..20, pseudo-pulse p) symbolic; bits in 0..2048',
